@@ -128,6 +128,12 @@ func init() {
 	add(word("$(c)", wCS(true, simpleCmd("c"))))
 	add(word("$(c d)", wCS(true, simpleCmd("c", "d"))))
 	add(word("`c`", wCS(false, simpleCmd("c"))))
+	// two-character operators inside substitutions
+	andOr := func(op string) ast.Command {
+		return &ast.AndOrList{Pipeline: &ast.Pipeline{Cmd: simpleCmd("a")}, List: []*ast.AndOr{{Op: op, Pipeline: &ast.Pipeline{Cmd: simpleCmd("b")}}}}
+	}
+	add(word("$(a && b)", wCS(true, andOr("&&"))))
+	add(word("`a || b`", wCS(false, andOr("||"))))
 	add(word("$((1))", wAE(wLit("1"))))
 	add(word("$((1+2))", wAE(wLit("1+2"))))
 	add(word("a$v", wLit("a"), wPE("v")))
@@ -203,6 +209,7 @@ func init() {
 	add(here("<<", "G", ast.Word{wLit("G")}, "G", "${v\n", false))
 	add(here("<<", "'G'", ast.Word{wSQ("G")}, "G", "${v\n", true))
 	add(here("<<", "H", ast.Word{wLit("H")}, "H", "a`b\n", false))
+	add(here("<<", "I", ast.Word{wLit("I")}, "I", "a$v `c` \\$\n", false)) // unquoted delimiter, a body full of expansions
 	h3 := here("<<", "E", ast.Word{wLit("E")}, "E", "x\n", false)
 	h3.text, h3.num = "3<<E", "3"
 	add(h3)
